@@ -15,7 +15,8 @@ Open Scope N_scope.
 Inductive status :=
 | SSuccess | SUnsupportedAccess | SUnsupportedEndpoint | SInvalidAction
 | SUnsupportedCommand | SUnsupportedAttribute | SUnsupportedWrite | SUnsupportedRead
-| STimeout | SUnsupportedCluster | SNeedsTimedInteraction | STimedRequestMisMatch.
+| STimeout | SUnsupportedCluster | SNeedsTimedInteraction | STimedRequestMisMatch
+| SUnsupportedEvent.
 
 Definition status_code (s : status) : N :=
   match s with
@@ -23,15 +24,16 @@ Definition status_code (s : status) : N :=
   | SInvalidAction => 0x80 | SUnsupportedCommand => 0x81 | SUnsupportedAttribute => 0x86
   | SUnsupportedWrite => 0x88 | SUnsupportedRead => 0x8F | STimeout => 0x94
   | SUnsupportedCluster => 0xC3 | SNeedsTimedInteraction => 0xC6 | STimedRequestMisMatch => 0xC9
+  | SUnsupportedEvent => 0xC7
   end.
 
 (** * Node metadata (dm/types/{node,endpoint,cluster,attribute,command}.rs) *)
 
-(** an attribute or a command: id, Access bits, and whether the cluster's
+(** an attribute, a command or an event: id, Access bits, and whether the cluster's
     [with_attrs] / [with_cmds] selector includes it *)
 Record leaf := mkLeaf { l_id : N; l_access : N; l_on : bool }.
 
-Record cluster := mkCluster { c_id : N; c_attrs : list leaf; c_cmds : list leaf }.
+Record cluster := mkCluster { c_id : N; c_attrs : list leaf; c_cmds : list leaf; c_events : list leaf }.
 
 Record endpoint := mkEndpoint { ep_id : N; ep_dts : list N; ep_clusters : list cluster }.
 
